@@ -28,6 +28,56 @@ func init() {
 	register(&Rule{ID: "C11.5", Prop: "C11", Min: 6,
 		Text: "decoded values do not alias the decoder's input buffer (same obligations as C01.8)",
 		Run:  runC01_8})
+	register(&Rule{ID: "C11.6", Prop: "C11", Min: 1,
+		Text: "encoded bytes are the caller's: an encoder that takes its scratch object from a sync.Pool and puts it back (directly, deferred, or in a deferred closure) returns nothing that lives in that object (same obligations as C20.5) - otherwise the next Marshal overwrites an earlier result",
+		Run:  runSyncPoolEscape})
+	register(&Rule{ID: "C11.7", Prop: "C11", Min: 1,
+		Text: "sequence fields are encoded element-wise (form codec): in setStructToForm a whole field is handed to formatProperType only on the edges where its Kind() is neither Slice nor Array - the decoder assigns one received value per element, so a []byte written as one raw string does not decode",
+		Run:  runC11_7})
+}
+
+func runC11_7(c *Ctx) {
+	p := c.P
+	enc := p.Fn(codecPkg, "", "setStructToForm")
+	format := p.FuncObj(codecPkg, "formatProperType")
+	kinds := map[string]int64{}
+	for _, k := range []string{"Slice", "Array"} {
+		kinds[k] = p.ConstInt("reflect", k)
+	}
+	n := 0
+	okAll := true
+	bad := ""
+	for _, call := range CallsTo(enc, format) {
+		arg := CallArgs(call)[0]
+		if ic, isCall := arg.(*ssa.Call); isCall {
+			if o := CalleeObj(ic); o != nil && o.FullName() == "(reflect.Value).Index" {
+				continue // an element
+			}
+		}
+		n++
+		for name, k := range kinds {
+			excluded := false
+			for _, ee := range EqEdges(enc) {
+				kc, isCall := ee.X.(*ssa.Call)
+				if !isCall || CalleeObj(kc) == nil || CalleeObj(kc).FullName() != "(reflect.Value).Kind" {
+					continue
+				}
+				if kv, isC := ConstIntOf(ee.Y); !isC || kv != k {
+					continue
+				}
+				if BlockDominatesInstr(ee.Ne, call) {
+					excluded = true
+				}
+			}
+			if !excluded {
+				okAll = false
+				bad = name
+			}
+		}
+	}
+	c.fact("dominance")
+	c.Check(okAll && n >= 1, "whole-field formatting only for non-sequence kinds", p.Pos(enc.Pos()), fmt.Sprintf("%d whole-field formatProperType call(s), each on the Kind() != Slice and Kind() != Array edges", n),
+		"setStructToForm hands a whole field to formatProperType although its kind may be "+bad+": a []byte (the helper's raw-bytes case) is written as one string while mapFormToStruct parses one number per element - the codec cannot decode its own output")
 }
 
 func reflectIndexCalls(fn *ssa.Function) []*ssa.Call {
